@@ -6,6 +6,16 @@ Case kinds (each replayable through execute):
          features inside it (parsed lines, Feature(...), read from a database): len(f) == end-start+1 and
          f.sequence(fasta[, use_strand=False]) == the model's slice of the in-memory reference (own complement table),
          fasta given as a path and as a pyfaidx.Fasta object
+  seqrw  2-4 versions of one FASTA file are written to the SAME path one after the other (other bases, other lengths /
+         line widths; index file removed or left behind, file overwritten or replaced); after every rewrite
+         f.sequence(path) must give the bases of the file as it is at the time of the call
+  seqobj records with headers gi|<n>|<name> [description] read through pyfaidx.Fasta objects opened with key_function,
+         split_char (+ duplicate_action='first'), read_long_names with / without key_function, plain short names, each
+         with as_raw False / True; feature.seqid is a key the object offers; expected = the slice of the record the object
+         itself resolves for feature.seqid
+  bed12  (case["deep"]) single-isoform genes: bed12(gene) whose block / thick features are level-2 children
+         (gene > transcript > exon/CDS), and bed12(transcript) with CDS / UTR / exons attached through an intermediate
+         feature (transcript > protein > CDS)
   bed12  GFF3 / GTF database of transcripts with 0-6 exons, 0-4 CDS, UTRs; the real FeatureDB.bed12 (id and Feature,
          block/thick/thin/name_field/color choices) and convert.to_bed12 vs the field model in gvmon/models/c18.py
 """
@@ -27,9 +37,20 @@ REQUIRED = ["len(feature) checked", "sequence() by path compared", "sequence() b
             "sequence() minus strand reverse-complemented", "sequence() minus strand with use_strand=False",
             "sequence(): features from a database", "bed12 calls by id", "bed12 calls by Feature", "bed12 lines compared",
             "bed12 thickStart/thickEnd judged", "bed12 ValueError expected and raised", "bed12 single-block exports",
-            "to_bed12 lines compared (fields 1-3, 10-12)", "bed12 name field absent -> '.'"]
+            "to_bed12 lines compared (fields 1-3, 10-12)", "bed12 name field absent -> '.'",
+            "sequence(path) compared after the file was rewritten", "rewrites: index file removed",
+            "rewrites: index file of the previous version kept", "rewrites by replacing the file",
+            "rewrites by writing into the same file", "rewrites that change a sequence length", "rewrites that change bases only",
+            "sequence(Fasta with naming options) compared", "sequence(Fasta keyfn_last) compared",
+            "sequence(Fasta split_first) compared", "sequence(Fasta long) compared", "sequence(Fasta long_keyfn) compared",
+            "sequence(Fasta short) compared",
+            "bed12 deep: lines for a gene compared (candidates are level-2 children)",
+            "bed12 deep: lines with >= 2 level-2 blocks compared", "bed12 deep: thick range from level-2 features judged",
+            "bed12 deep: block/thick features attached through an intermediate feature",
+            "bed12 deep: ValueError expected and raised"]
 
-REQUIRED_CLASSES = ["single block by id", "bed12 fmt=gff3", "bed12 fmt=gtf", "blocks=0", "blocks=1", "blocks>=2", "non-spanning", "strand -", "strand +"]
+REQUIRED_CLASSES = ["bed12 deep target=gene", "bed12 deep target=transcript via intermediate", "bed12 deep fmt=gtf",
+                    "seqobj as_raw=True", "seqobj as_raw=False", "single block by id", "bed12 fmt=gff3", "bed12 fmt=gtf", "blocks=0", "blocks=1", "blocks>=2", "non-spanning", "strand -", "strand +"]
 ASSUMPTIONS = [
     "'ascending order' = by start; children selected as blocks or thick features never share a start (tie order is not "
     "stated) and are disjoint or abutting",
@@ -41,6 +62,13 @@ ASSUMPTIONS = [
     "convert.to_bed12 is judged on fields 1-3 and 10-12 only, and only for transcripts with >= 1 block child whose "
     "blocks span the transcript",
     "GTF transcripts are the inferred ones (extent = span of the exons, all other children inside that span)",
+    "deep: only levels the database records (1 and 2) are used: a gene's exons/CDS below its only transcript, or parts one "
+    "intermediate feature below the transcript; level-3 descendants are not generated; to_bed12 is not asked there",
+    "seqrw: an index file left behind is older than the rewritten FASTA file (its mtime is set one hour back, as if time "
+    "had passed), which is what makes pyfaidx itself rebuild it",
+    "seqobj: feature.seqid is one of the keys the reader offers; readers opened with as_raw=True hand out plain str: a "
+    "call that raises AttributeError on such a reader is counted and not judged (the statement does not name raw "
+    "readers); a value that is returned is judged",
     "sequence(): features lie inside the named sequence; alphabet ACGTN plus the IUPAC ambiguity codes, both cases; complement = the standard IUPAC table",
 ]
 QUICK_SHARDS = 4
@@ -52,7 +80,7 @@ def setup(ctx):
 
 
 def execute(ctx, case):
-    return {"seq": run_seq, "bed12": run_bed12}[case["kind"]](ctx, case)
+    return {"seq": run_seq, "bed12": run_bed12, "seqrw": run_seqrw, "seqobj": run_seqobj}[case["kind"]](ctx, case)
 
 
 # ---------------------------------------------------------------------------------
@@ -135,6 +163,156 @@ def run_seq(ctx, case):
 
 
 # ---------------------------------------------------------------------------------
+# seqrw: the same path string, the file rewritten between calls
+# ---------------------------------------------------------------------------------
+def make_features(case_origin, slices):
+    from gffutils.feature import Feature, feature_from_line
+
+    if case_origin == "line":
+        return [feature_from_line("%s\tsrc\tregion\t%d\t%d\t.\t%s\t.\tID=r%d" % (sl[0], sl[-3], sl[-2], sl[-1], i))
+                for i, sl in enumerate(slices)]
+    return [Feature(seqid=sl[0], start=sl[-3], end=sl[-2], strand=sl[-1]) for sl in slices]
+
+
+def run_seqrw(ctx, case):
+    import time
+
+    path = ctx.tmp(".fa")
+    fai = path + ".fai"
+    prev = None
+    try:
+        for r, rd in enumerate(case["rounds"]):
+            ref = {name: seq for name, _, seq, _ in rd["genome"]}
+            text = M.fasta_text(rd["genome"])
+            if r:
+                if rd["fai"] == "remove" or not os.path.exists(fai):
+                    if os.path.exists(fai):
+                        os.unlink(fai)
+                    ctx.mon("rewrites: index file removed")
+                else:
+                    # the index file stays; it is (as it would be after some seconds) older than the new FASTA file
+                    old = time.time() - 3600
+                    os.utime(fai, (old, old))
+                    ctx.mon("rewrites: index file of the previous version kept")
+                if rd["write"] == "replace":
+                    with open(path + ".new", "w", newline="") as fh:
+                        fh.write(text)
+                    os.replace(path + ".new", path)
+                    ctx.mon("rewrites by replacing the file")
+                else:
+                    with open(path, "w", newline="") as fh:
+                        fh.write(text)
+                    ctx.mon("rewrites by writing into the same file")
+                if any(len(ref[n]) != len(prev[n]) for n in ref):
+                    ctx.mon("rewrites that change a sequence length")
+                elif ref != prev:
+                    ctx.mon("rewrites that change bases only")
+                else:
+                    ctx.mon("rewrites with identical content")
+            else:
+                with open(path, "w", newline="") as fh:
+                    fh.write(text)
+            try:
+                feats = make_features(case["origin"], rd["slices"])
+            except Exception as ex:
+                ctx.violation(case, {"why": "preparing features raised %s" % type(ex).__name__, "exception": repr(ex)})
+                return
+            for sl, f in zip(rd["slices"], feats):
+                name, s, e, strand = sl
+                for use_strand in (True, False):
+                    want = M.expected_sequence(ref[name], s, e, strand, use_strand)
+                    try:
+                        got = f.sequence(path) if use_strand else f.sequence(path, use_strand=False)
+                    except Exception as ex:
+                        ctx.violation(case, {"why": "sequence(path) raised %s %s" % (
+                            type(ex).__name__, "after the file was rewritten" if r else "on the first version of the file"),
+                            "exception": repr(ex), "slice": sl, "version": r})
+                        return
+                    ctx.mon("sequence(path) compared after the file was rewritten" if r else "sequence(path) compared on the first version")
+                    if got != want:
+                        stale = prev is not None and name in prev and got == M.expected_sequence(prev[name], s, e, strand, use_strand)
+                        ctx.violation(case, {"why": "sequence(path) differs from bases start..end of the file as it is at the time of the call"
+                                                    + (" (file rewritten since an earlier call with the same path)" if r else ""),
+                                             "slice": sl, "version": r, "use_strand": use_strand, "got": repr(got)[:300],
+                                             "expected": want[:300], "equals the previous version's bases": bool(stale),
+                                             "index file": rd["fai"] if r else None, "rewritten by": rd["write"] if r else None})
+                        return
+            prev = ref
+    finally:
+        for p in (path, fai, path + ".new"):
+            if os.path.exists(p):
+                os.unlink(p)
+
+
+# ---------------------------------------------------------------------------------
+# seqobj: pyfaidx.Fasta objects opened with non-default naming options
+# ---------------------------------------------------------------------------------
+def reader_options(mode):
+    return {
+        "keyfn_last": dict(key_function=lambda k: k.split("|")[-1]),
+        "split_first": dict(split_char="|", duplicate_action="first"),
+        "long": dict(read_long_names=True),
+        "long_keyfn": dict(read_long_names=True, key_function=lambda k: k.split(" ")[0].split("|")[-1]),
+        "short": dict(),
+    }[mode]
+
+
+def run_seqobj(ctx, case):
+    import pyfaidx
+
+    seqs = case["genome"]
+    path = ctx.tmp(".fa")
+    with open(path, "w", newline="") as fh:
+        fh.write(M.fasta_text(seqs))
+    fa = None
+    try:
+        try:
+            fa = pyfaidx.Fasta(path, as_raw=bool(case["as_raw"]), **reader_options(case["mode"]))
+            feats = make_features(case["origin"], case["slices"])
+        except Exception as ex:
+            ctx.violation(case, {"why": "preparing reader/features raised %s" % type(ex).__name__, "exception": repr(ex)})
+            return
+        for sl, f in zip(case["slices"], feats):
+            key, idx, s, e, strand = sl
+            # the record the object itself resolves for feature.seqid (pyfaidx is the trusted reader)
+            rec = fa[f.seqid]
+            whole = rec[0:len(rec)]
+            whole = whole if isinstance(whole, str) else whole.seq
+            if whole != seqs[idx][2]:
+                raise AssertionError("harness: reader in mode %s resolves %r to another record than the naming model" % (case["mode"], key))
+            ctx.mon("sequence(Fasta object): records resolved by the object itself")
+            for use_strand in (True, False):
+                want = M.expected_sequence(whole, s, e, strand, use_strand)
+                try:
+                    got = f.sequence(fa) if use_strand else f.sequence(fa, use_strand=False)
+                except Exception as ex:
+                    if case["as_raw"] and isinstance(ex, AttributeError):
+                        # a raw reader hands out plain str; the statement does not say such readers are supported
+                        ctx.skip("sequence(Fasta(as_raw=True)) raised AttributeError (raw readers: not judged)")
+                        ctx.mon("sequence(Fasta as_raw=True) calls that raised AttributeError (not judged)")
+                        continue
+                    ctx.violation(case, {"why": "sequence(Fasta opened with naming options) raised %s" % type(ex).__name__,
+                                         "exception": repr(ex), "slice": sl, "mode": case["mode"], "as_raw": case["as_raw"]})
+                    return
+                ctx.mon("sequence(Fasta with naming options) compared")
+                ctx.mon("sequence(Fasta %s%s) compared" % (case["mode"], ", as_raw" if case["as_raw"] else ""))
+                if got != want:
+                    ctx.violation(case, {"why": "sequence(Fasta opened with naming options) differs from bases start..end of the record "
+                                                "the object resolves for feature.seqid", "slice": sl, "mode": case["mode"],
+                                         "as_raw": case["as_raw"], "use_strand": use_strand, "got": repr(got)[:300], "expected": want[:300]})
+                    return
+    finally:
+        try:
+            if fa is not None:
+                fa.close()
+        except Exception:
+            pass
+        for p in (path, path + ".fai"):
+            if os.path.exists(p):
+                os.unlink(p)
+
+
+# ---------------------------------------------------------------------------------
 # bed12
 # ---------------------------------------------------------------------------------
 def gff3_attrs(attrs):
@@ -148,6 +326,7 @@ def gtf_attrs(attrs):
 def annotation_text(case):
     ts = case["transcripts"]
     lines = []
+    via = (case.get("deep") or {}).get("via") or []
     if case["fmt"] == "gff3":
         genes = {}
         for t in ts:
@@ -160,10 +339,16 @@ def annotation_text(case):
         for t in ts:
             lines.append("%s\tsrc\t%s\t%d\t%d\t%s\t%s\t.\t%s" % (t["seqid"], t["type"], t["start"], t["end"], t["score"],
                                                                 t["strand"], gff3_attrs(t["attrs"])))
+            hung = [c for c in t["children"] if c["type"] in via]
+            if hung:
+                # intermediate feature between the transcript and some of its parts
+                lines.append("%s\tsrc\tprotein\t%d\t%d\t.\t%s\t.\tID=%s.p;Parent=%s" % (
+                    t["seqid"], min(c["start"] for c in hung), max(c["end"] for c in hung), t["strand"], t["id"], t["id"]))
             for n, c in enumerate(t["children"]):
                 extra = ";ID=%s.c%d" % (t["id"], n) if n % 3 == 0 else ""
                 lines.append("%s\tsrc\t%s\t%d\t%d\t.\t%s\t%s\tParent=%s%s" % (
-                    t["seqid"], c["type"], c["start"], c["end"], t["strand"], "0" if c["type"] == "CDS" else ".", t["id"], extra))
+                    t["seqid"], c["type"], c["start"], c["end"], t["strand"], "0" if c["type"] == "CDS" else ".",
+                    t["id"] + ".p" if c["type"] in via else t["id"], extra))
     else:
         for t in ts:
             for c in t["children"]:
@@ -180,6 +365,23 @@ def model_transcript(t, fmt):
         return t
     exons = [c for c in t["children"] if c["type"] == "exon"]
     return dict(t, start=min(c["start"] for c in exons), end=max(c["end"] for c in exons), score=".")
+
+
+def target_model(case, c):
+    """The feature bed12 is asked for in call c (with its block/thick candidates as "children"): the transcript, or -
+    deep target 'gene' - the single-isoform gene above it, whose candidates are the transcript's parts (level 2)."""
+    t = model_transcript(case["transcripts"][c["t"]], case["fmt"])
+    if (case.get("deep") or {}).get("target") != "gene":
+        return t
+    attrs = dict((k, v) for k, v in t["attrs"])
+    if case["fmt"] == "gff3":
+        gid = attrs["Parent"][0]
+        gattrs = [["ID", [gid]]]
+    else:
+        gid = attrs["gene_id"][0]
+        gattrs = [["gene_id", [gid]]]
+    return {"id": gid, "seqid": t["seqid"], "start": t["start"], "end": t["end"], "strand": t["strand"], "score": ".",
+            "type": "gene", "attrs": gattrs, "children": t["children"], "shape": t.get("shape")}
 
 
 SINGLE_BY_ID = "bed12 given an id raised %s for a transcript without block children (single-block export expected)"
@@ -217,7 +419,8 @@ def one_call(ctx, case, db, ci, c):
     from gffutils import constants, convert
 
     fmt = case["fmt"]
-    t = model_transcript(case["transcripts"][c["t"]], fmt)
+    t = target_model(case, c)
+    deep = case.get("deep") or {}
     opts = {"block": c["block"], "thick": c["thick"], "thin": c["thin"], "name_field": c["name_field"], "color": c["color"]}
     exp = M.bed12_expect(t, t["children"], opts)
     info = {"call": ci, "transcript": t["id"], "given as": c["as"], "options": opts}
@@ -248,6 +451,8 @@ def one_call(ctx, case, db, ci, c):
             return dict(info, why="blocks do not span the feature: %s raised instead of ValueError" % type(raised).__name__,
                         exception=repr(raised))
         ctx.mon("bed12 ValueError expected and raised")
+        if deep:
+            ctx.mon("bed12 deep: ValueError expected and raised")
         return None
     if raised is not None:
         if exp["single"] and c["as"] == "id":
@@ -275,6 +480,19 @@ def one_call(ctx, case, db, ci, c):
             return dict(info, why="bed12 left always_return_list changed (switch was off before the call)")
     why, detail = M.judge_bed12(line, exp)
     ctx.mon("bed12 lines compared")
+    if deep:
+        lvl2 = [x for x in t["children"] if deep["target"] == "gene" or x["type"] in deep["via"]]
+        nb, nt = len(M.select(lvl2, c["block"])), len(M.select(lvl2, c["thick"]))
+        if deep["target"] == "gene":
+            ctx.mon("bed12 deep: lines for a gene compared (candidates are level-2 children)")
+        if nb:
+            ctx.mon("bed12 deep: lines with level-2 block features compared")
+        if nb >= 2:
+            ctx.mon("bed12 deep: lines with >= 2 level-2 blocks compared")
+        if nt:
+            ctx.mon("bed12 deep: thick range from level-2 features judged")
+        if deep["via"] and (nb or nt):
+            ctx.mon("bed12 deep: block/thick features attached through an intermediate feature")
     if exp["thick_present"]:
         ctx.mon("bed12 thickStart/thickEnd judged")
     if exp["single"]:
@@ -302,7 +520,7 @@ def case_classes(case):
     out = set(["bed12 fmt=" + case["fmt"]])
     nontrivial = False
     for c in case["calls"]:
-        t = model_transcript(case["transcripts"][c["t"]], case["fmt"])
+        t = target_model(case, c)
         out.add("strand " + t["strand"])
         n = len(M.select(t["children"], c["block"]))
         out.add("blocks=0" if n == 0 else ("blocks=1" if n == 1 else "blocks>=2"))
@@ -326,6 +544,28 @@ def run(ctx):
         execute(ctx, case)
         ctx.case(case, any(sl[3] == "-" for sl in case["slices"]), cls="seq origin=" + case["origin"])
         ctx.mon("slices on the minus strand", sum(1 for sl in case["slices"] if sl[3] == "-"))
+    # 1b. the same path while the file is rewritten between calls
+    for _ in range(ctx.budget(500, 16000)):
+        case = G.rewrite_case(rng)
+        execute(ctx, case)
+        ctx.case(case, True, sample=case if rng.random() < 0.01 else None, cls="seqrw %d versions" % len(case["rounds"]))
+        for rd in case["rounds"][1:]:
+            ctx.classes["seqrw index %s, %s" % (rd["fai"], rd["write"])] += 1
+    # 1c. readers opened with non-default naming options
+    for _ in range(ctx.budget(500, 16000)):
+        case = G.named_case(rng)
+        execute(ctx, case)
+        ctx.case(case, True, cls="seqobj mode=%s" % case["mode"])
+        ctx.classes["seqobj as_raw=%s" % bool(case["as_raw"])] += 1
+    # 2a. bed12 for features whose block / thick features are level-2 children
+    for _ in range(ctx.budget(700, 24000)):
+        case = G.deep_case(rng)
+        execute(ctx, case)
+        classes, nontrivial = case_classes(case)
+        ctx.case(case, nontrivial, sample={"fmt": case["fmt"], "deep": case["deep"], "calls": case["calls"][:1],
+                                           "text": annotation_text(case)[:600]} if rng.random() < 0.02 else None,
+                 cls="bed12 deep target=%s%s" % (case["deep"]["target"], " via intermediate" if case["deep"]["via"] else ""))
+        ctx.classes["bed12 deep fmt=" + case["fmt"]] += 1
     # 2. bed12 (transcripts whose block selection is empty are given as Feature here)
     bed_phase(ctx, rng, ctx.budget(3000, 120000), False)
     # 3. bed12 by id for transcripts without block children: last, so that a defect there cannot push other reports
@@ -366,7 +606,11 @@ MANIFEST = {
             "Generated GFF3/GTF transcript models are imported with the real create_db and FeatureDB.bed12 (by id and by "
             "Feature, all block/thick/thin/name/colour choices) is compared field by field with a model written from the "
             "statement, including ValueError for non-spanning blocks and the single-block export; convert.to_bed12 is "
-            "judged on the shared fields. Held = no executed case disagreed.",
+            "judged on the shared fields. bed12 is also asked for single-isoform genes and for transcripts whose CDS/UTR/"
+            "exons hang on an intermediate feature (block/thick features at level 2). The same FASTA path is rewritten "
+            "between sequence() calls (index removed or left behind, overwrite or replace), and readers opened with "
+            "key_function / split_char / read_long_names / as_raw are passed to sequence(). "
+            "Held = no executed case disagreed.",
     "note": "Trusted: the 60-line field model, pyfaidx as file reader. Not judged: thickStart/thickEnd without thick "
             "features, thin choices, calls with neither thick nor thin featuretype. F-C18-1: bed12(<id string>) for a "
             "transcript without block children raises AttributeError.",
